@@ -127,11 +127,11 @@ Ltac inv_step H :=
 Lemma Inv_step n s e s' : Inv n s -> step s e = Some s' -> Inv n s'.
 Proof.
   intros [I1 I2 I3 I4 I5] H.
-  destruct s as [p q h qu g sl he ru orp]; simpl in *.
+  destruct s as [p q h qu g sl he ru orp dr]; simpl in *.
   destruct e; simpl in H.
   - (* Request *)
     destruct (active _ r) eqn:A; [discriminate|]. inversion H; subst; clear H.
-    unfold active in A; simpl in A. rewrite !orb_false_iff in A. destruct A as [[[[A1 _] _] _] _].
+    unfold active in A; simpl in A. rewrite !orb_false_iff in A. destruct A as [[[[[A1 _] _] _] _] _].
     apply mem_false_In in A1.
     constructor; simpl; auto.
     + rewrite len_snoc. lia.
@@ -189,6 +189,9 @@ Proof.
   - (* OrphanExit *)
     destruct (mem r orp) eqn:E; [|discriminate]. inversion H; subst; clear H.
     constructor; simpl; auto.
+  - (* Done *)
+    destruct (mem r dr) eqn:E; [|discriminate]. inversion H; subst; clear H.
+    constructor; simpl; auto.
 Qed.
 
 Lemma Inv_run n es : forall s s', Inv n s -> run s es = Some s' -> Inv n s'.
@@ -230,7 +233,7 @@ Definition is_drop_running (e : event) : bool :=
 Lemma orphans_step s e s' :
   step s e = Some s' -> is_drop_running e = false -> orphans s = [] -> orphans s' = [].
 Proof.
-  destruct s as [p q h qu g sl he ru orp]; simpl. intros H Hd Ho. subst orp.
+  destruct s as [p q h qu g sl he ru orp dr]; simpl. intros H Hd Ho. subst orp.
   destruct e; simpl in *; try discriminate;
     repeat match type of H with
            | (if ?c then _ else _) = Some _ => destruct c; try discriminate
@@ -268,7 +271,7 @@ Lemma no_leak_step s e s' :
   step s e = Some s' -> gives_back s e = true ->
   pool s' = pool s + 1 /\ in_hand_off s' + holding s' + 1 = in_hand_off s + holding s.
 Proof.
-  destruct s as [p q h qu g sl he ru orp]; unfold in_hand_off, holding; simpl. intros H G.
+  destruct s as [p q h qu g sl he ru orp dr]; unfold in_hand_off, holding; simpl. intros H G.
   destruct e; simpl in *; try discriminate;
     match type of H with
     | (if ?c then _ else _) = Some _ => destruct c eqn:E; try discriminate
@@ -281,7 +284,7 @@ Lemma no_leak_gone s s' h q :
   step s Deliver = Some s' -> queue s = h :: q -> mem h (gone s) = true ->
   pool s' = pool s + 1 /\ hand s' = false /\ slots s' = slots s.
 Proof.
-  destruct s as [p rq hd qu g sl he ru orp]; simpl. intros H Hq Hg. subst qu.
+  destruct s as [p rq hd qu g sl he ru orp dr]; simpl. intros H Hq Hg. subst qu.
   destruct hd; [|discriminate]. rewrite Hg in H. inversion H; subst; simpl; auto.
 Qed.
 
@@ -314,15 +317,15 @@ Lemma burst_run m : forall s r0,
 Proof.
   induction m as [|m IH]; intros s r0 Hq Hg Hs Hh Hr Hp Hf.
   - exists s. simpl. repeat split; auto; lia.
-  - destruct s as [p q h qu g sl he ru orp]; simpl in *. subst qu g sl h q.
-    assert (A0 : active (mk p 0 false [] [] [] he ru orp) r0 = false).
+  - destruct s as [p q h qu g sl he ru orp dr]; simpl in *. subst qu g sl h q.
+    assert (A0 : active (mk p 0 false [] [] [] he ru orp dr) r0 = false).
     { specialize (Hf 0%nat ltac:(lia)). replace (r0 + N.of_nat 0) with r0 in Hf by lia. exact Hf. }
     rewrite A0.
     unfold active in A0; simpl in A0.
     assert (Ep : (p =? 0) = false) by (apply N.eqb_neq; lia).
     assert (E1 : (0 + 1 =? 0) = false) by (apply N.eqb_neq; lia).
     cbn [run step app]. rewrite E1, Ep. cbn [run step mem app del]. rewrite N.eqb_refl.
-    set (s1 := mk (p - 1) (0 + 1 - 1) false [] [] [] (he ++ [r0]) ru orp).
+    set (s1 := mk (p - 1) (0 + 1 - 1) false [] [] [] (he ++ [r0]) ru orp dr).
     destruct (IH s1 (r0 + 1)) as (s' & R & Q1 & Q2 & Q3 & Q4 & Q5 & Q6 & Q7 & Q8 & Q9); subst s1; simpl; auto; try lia.
     + intros i Hi. specialize (Hf (S i) ltac:(lia)).
       replace (r0 + 1 + N.of_nat i) with (r0 + N.of_nat (S i)) by lia.
@@ -347,7 +350,7 @@ Proof.
   exists s'. split; [exact R'|].
   assert (Hp : pool s' = 0) by lia.
   unfold holding. rewrite A7, A8, Q3, Q4, len_nil. split; [lia|]. split; [exact Hp|].
-  intros r s1 Hs. destruct s' as [p q h qu g sl he ru orp]; simpl in *. subst.
+  intros r s1 Hs. destruct s' as [p q h qu g sl he ru orp dr]; simpl in *. subst.
   destruct (active _ r); [discriminate|]. inversion Hs; subst. unfold helper_enabled; simpl.
   rewrite ?orb_true_r. reflexivity.
 Qed.
@@ -365,7 +368,7 @@ Lemma fifo_step s e s' :
      ((mem h (gone s) = false /\ slots s' = slots s ++ [h] /\ pool s' = pool s) \/
       (mem h (gone s) = true /\ slots s' = slots s /\ pool s' = pool s + 1))).
 Proof.
-  destruct s as [p q h qu g sl he ru orp]; simpl. intros H.
+  destruct s as [p q h qu g sl he ru orp dr]; simpl. intros H.
   destruct e; simpl in *;
     try (left; repeat match type of H with
            | (if ?c then _ else _) = Some _ => destruct c; try discriminate
@@ -382,7 +385,7 @@ Lemma nonhelper_step s e s' :
   (exists t, queue s' = queue s ++ t) /\
   (gives_back s e = true -> pool s' = pool s + 1).
 Proof.
-  destruct s as [p q h qu g sl he ru orp]; simpl. intros H Hh.
+  destruct s as [p q h qu g sl he ru orp dr]; simpl. intros H Hh.
   destruct e; simpl in *; try discriminate;
     repeat match type of H with
            | (if ?c then _ else _) = Some _ => let E := fresh "E" in destruct c eqn:E; try discriminate
@@ -396,7 +399,7 @@ Qed.
 
 Lemma helper_enabled_sound s e : helper_enabled s = Some e -> exists s', step s e = Some s' /\ is_helper e = true.
 Proof.
-  destruct s as [p q h qu g sl he ru orp]; unfold helper_enabled; simpl.
+  destruct s as [p q h qu g sl he ru orp dr]; unfold helper_enabled; simpl.
   destruct h.
   - destruct qu as [|x t]; [discriminate|]. intros H; inversion H; subst. simpl.
     destruct (mem x g); eexists; split; eauto.
@@ -416,7 +419,7 @@ Proof.
   intros H Hn Hq. destruct (Inv_reach _ _ _ H) as [I1 I2 _ _ _].
   destruct (helper_enabled s) as [e|] eqn:He.
   - left. destruct (helper_enabled_sound _ _ He) as (s' & Hs & _). eauto.
-  - right. destruct s as [p q h qu g sl he ru orp]; unfold helper_enabled in He; simpl in *.
+  - right. destruct s as [p q h qu g sl he ru orp dr]; unfold helper_enabled in He; simpl in *.
     destruct h.
     { destruct qu; [congruence | discriminate]. }
     assert (Hlen : 0 < len qu).
@@ -532,7 +535,7 @@ Section Progress.
     replace (i + (j - i))%nat with j in A by lia.
     exists j. split; auto.
     pose proof (Hstep j) as St. destruct (sched j) eqn:E; simpl in Pj; try discriminate; auto.
-    exfalso. destruct (tr j) as [p q h qu g sl he ru orp]; simpl in *. subst h. rewrite Hh in St. discriminate.
+    exfalso. destruct (tr j) as [p q h qu g sl he ru orp dr]; simpl in *. subst h. rewrite Hh in St. discriminate.
   Qed.
 
   (* a token is free and somebody is queued: the helper picks it up *)
@@ -553,10 +556,10 @@ Section Progress.
     replace (i + (j - i))%nat with j in * by lia.
     exists (S j). split; [lia|].
     pose proof (Hstep j) as St. destruct (sched j) eqn:E; simpl in Pj; try discriminate.
-    - destruct (tr j) as [p q h qu g sl he ru orp]; simpl in *.
+    - destruct (tr j) as [p q h qu g sl he ru orp dr]; simpl in *.
       destruct h; [discriminate|]. destruct (q =? 0); [discriminate|]. destruct (p =? 0); [discriminate|].
       inversion St as [S']. simpl. split; auto. subst qu. apply queue_nonempty_app; auto.
-    - exfalso. destruct (tr j) as [p q h qu g sl he ru orp]; simpl in *. rewrite A, Hh in St. discriminate.
+    - exfalso. destruct (tr j) as [p q h qu g sl he ru orp dr]; simpl in *. rewrite A, Hh in St. discriminate.
   Qed.
 
   (* every token is out and somebody is queued: a requester lets go, or the helper got one meanwhile *)
@@ -578,10 +581,10 @@ Section Progress.
     destruct (is_helper (sched k)) eqn:Eh.
     - (* a helper event with empty hands is an acquisition *)
       destruct (sched k) eqn:E; simpl in Eh; try discriminate.
-      + destruct (tr k) as [p q h qu g sl he ru orp]; simpl in *.
+      + destruct (tr k) as [p q h qu g sl he ru orp dr]; simpl in *.
         destruct h; [discriminate|]. destruct (q =? 0); [discriminate|]. destruct (p =? 0); [discriminate|].
         inversion St. simpl. split; auto.
-      + exfalso. destruct (tr k) as [p q h qu g sl he ru orp]; simpl in *. rewrite A, Hh in St. discriminate.
+      + exfalso. destruct (tr k) as [p q h qu g sl he ru orp dr]; simpl in *. rewrite A, Hh in St. discriminate.
     - simpl in Pk.
       destruct (nonhelper_step _ _ _ St Eh) as (A' & B' & C' & (t' & D') & G').
       specialize (G' Pk). split.
@@ -692,10 +695,10 @@ Definition w_ev (p : nat) : event :=
 Definition w_st (p : nat) : st :=
   match p with
   | 0%nat => init 1
-  | 1%nat => mk 1 1 false [1] [] [] [] [] []
-  | 2%nat => mk 0 0 true [1] [] [] [] [] []
-  | 3%nat => mk 0 0 false [] [] [1] [] [] []
-  | _ => mk 0 0 false [] [] [] [1] [] []
+  | 1%nat => mk 1 1 false [1] [] [] [] [] [] []
+  | 2%nat => mk 0 0 true [1] [] [] [] [] [] []
+  | 3%nat => mk 0 0 false [] [] [1] [] [] [] []
+  | _ => mk 0 0 false [] [] [] [1] [] [] []
   end.
 
 Definition w_sched (i : nat) : event := w_ev (w_phase i).
@@ -753,3 +756,67 @@ Qed.
 
 Lemma w_waits : In 1 (queue (w_tr 1)).
 Proof. vm_compute. left; reflexivity. Qed.
+
+(* ====================================================================== *)
+(* H. the release point: process exit, not end-of-file on its pipes        *)
+(* ====================================================================== *)
+
+Lemma release_at_exit s r ok s' :
+  step s (Exit r ok) = Some s' ->
+  pool s' = pool s + 1 /\ In r (draining s') /\ mem r (running s') = mem r (del r (running s)) /\
+  queue s' = queue s /\ hand s' = hand s /\ reqs s' = reqs s.
+Proof.
+  destruct s as [p q h qu g sl he ru orp dr]; simpl.
+  destruct (mem r ru) eqn:E; [|discriminate]. intros H; inversion H; subst; simpl.
+  repeat split; auto. apply in_or_app. right. left. reflexivity.
+Qed.
+
+(* the end of the request (EOF on the pipes of a process that has exited, or the request being dropped) moves no token *)
+Lemma done_moves_no_token s r s' :
+  step s (Done r) = Some s' ->
+  pool s' = pool s /\ reqs s' = reqs s /\ hand s' = hand s /\ queue s' = queue s /\ gone s' = gone s /\
+  slots s' = slots s /\ held s' = held s /\ running s' = running s.
+Proof.
+  destruct s as [p q h qu g sl he ru orp dr]; simpl.
+  destruct (mem r dr); [|discriminate]. intros H; inversion H; subst; simpl. repeat split; auto.
+Qed.
+
+(* hence: a compiler that has exited while something still holds its pipes keeps nothing from the next request.
+   With one token: r runs, exits, its request is NEVER completed (no Done), and a later request still gets the token. *)
+Lemma next_runs_without_eof n es s r ok s1 r2 :
+  run (init n) es = Some s -> step s (Exit r ok) = Some s1 ->
+  queue s = [] -> hand s = false -> active s1 r2 = false ->
+  exists s', run s1 [Request r2; HelperAcquire; Deliver; Receive r2; Start r2] = Some s' /\
+             In r2 (running s') /\ In r (draining s').
+Proof.
+  intros H E Hq Hh A.
+  destruct (Inv_reach _ _ _ H) as [_ I2 I3 _ _].
+  destruct s as [p q h qu g sl he ru orp dr]; simpl in *. subst qu h.
+  rewrite len_nil in I2. unfold b2n in I2. assert (q = 0) by lia. subst q.
+  assert (g = []). { destruct g as [|x t]; auto. exfalso. apply (I3 x). left; auto. } subst g.
+  destruct (mem r ru) eqn:Er; [|discriminate]. inversion E; subst s1; clear E.
+  cbn [run step]. rewrite A. cbn [app].
+  assert (E1 : (0 + 1 =? 0) = false) by (apply N.eqb_neq; lia).
+  assert (E2 : (p + 1 =? 0) = false) by (apply N.eqb_neq; lia).
+  cbn [run step]. rewrite E1, E2. cbn [run step mem].
+  rewrite mem_app, mem_single, N.eqb_refl, orb_true_r.
+  cbn [run step]. rewrite mem_app, mem_single, N.eqb_refl, orb_true_r.
+  eexists. split; [reflexivity|]. simpl. split.
+  - apply in_or_app. right. left. reflexivity.
+  - apply in_or_app. right. left. reflexivity.
+Qed.
+
+(* ====================================================================== *)
+(* I. how the server's client is built                                     *)
+(* ====================================================================== *)
+
+Lemma server_client_owns_its_pool ncpus mf :
+  c_limited (client_new ncpus mf) = true /\ c_tokens (client_new ncpus mf) = ncpus.
+Proof. split; reflexivity. Qed.
+
+Lemma server_client_bound ncpus mf m :
+  granted_at_once (client_new ncpus mf) m <= ncpus /\ empty_acquireds (client_new ncpus mf) m = 0.
+Proof. unfold granted_at_once, empty_acquireds, client_new, client_new_num; simpl. split; [lia | reflexivity]. Qed.
+
+Lemma inherited_mode_unbounded m : granted_at_once client_inherited m = m /\ empty_acquireds client_inherited m = m.
+Proof. split; reflexivity. Qed.
